@@ -8,13 +8,38 @@ PROP = "C12"
 COUNT = {"quick": 150, "thorough": 1600, "search": 500}
 PARALLEL = True
 TOL = 1e-9          # measured gain / operator identities (FFT round-off); all values are O(1)
-# "1 inside cutoff-4s-1 / 0 outside cutoff+4s+1" holds up to the weight the truncated 3-D Gaussian kernel carries at offsets of length
-# >= 4s+1 (its cube support reaches 4*sqrt(3)*s): by Props/C12.soft_gain_tail 1-gain (inside) and gain (outside) are bounded by exactly
-# that weight, tail_weight(s) below (1.5e-5 for s=1, 1.2e-4 for s=2, 3.4e-4 for s=4); DESIGN.md's flat 1e-4 was too small for s>=2.
+# "1 inside cutoff-4s-1 / 0 outside cutoff+4s+1": the tolerance of these two clauses is NOT chosen here. Props/C12.soft_gain_inside /
+# soft_gain_outside prove 1-gain <= tail3 ker m_in (inside) and gain <= tail3 ker m_out (outside), tail3 = weight of the executed kernel at
+# offsets of squared length > m; the driver evaluates both numbers (and, per bin, the hypotheses of the two theorems) and the judge uses
+# them as they come (+ TOL for FFT round-off). m_in / m_out are the exact integers floor(M^2) / ceil(M^2)-1 for the margin M = 4s+1.
+from fractions import Fraction
+TINY = 8            # boxes with every edge <= TINY are also filtered end to end by the model's own DFT (driver op "filter")
+
+
+def margin_m(s):
+    """(m_in, m_out): offsets of squared length <= m_in have length <= M = 4s+1; offsets of squared length <= m_out have length < M"""
+    M2 = (4 * Fraction(s) + 1) ** 2
+    fl = M2.numerator // M2.denominator
+    ce = -((-M2.numerator) // M2.denominator)
+    return int(fl), int(ce) - 1
+
+
+def margin_sets(dims, r, s):
+    """the bins the statement calls inside (|k| <= r-4s-1) and outside (|k| >= r+4s+1), decided exactly on integers/rationals"""
+    R2 = radius2(dims)
+    M = 4 * Fraction(s) + 1
+    lo, hi = Fraction(r) - M, Fraction(r) + M
+    vals = np.unique(R2)
+    ins = [int(v) for v in vals if lo >= 0 and Fraction(int(v)) <= lo * lo]
+    outs = [int(v) for v in vals if hi <= 0 or Fraction(int(v)) >= hi * hi]
+    return np.isin(R2, ins), np.isin(R2, outs)
+
+
 _TAIL = {}
 
 
 def tail_weight(s):
+    """Python-side estimate of the same weight; used ONLY when the model gave no answer (that is already a finding) and in sample statistics"""
     if s not in _TAIL:
         t = int(4.0 * s + 0.5)
         x = np.arange(-t, t + 1)
@@ -24,12 +49,12 @@ def tail_weight(s):
         w3 = w[:, None, None] * w[None, :, None] * w[None, None, :]
         _TAIL[s] = float(w3[q2 >= (4 * s + 1) ** 2].sum())
     return _TAIL[s]
-RULE = ("one case = (box nx,ny,nz in 8..16 quick / 8..48 thorough, cubic or not, even and odd; filter low|high|band; cutoff(s) 1..N/2 "
+RULE = ("one case = (box nx,ny,nz in 8..16 quick / 8..48 thorough (plus a share of tiny boxes 5..8 that the model also filters end to end with its own DFT), cubic or not, even and odd; filter low|high|band; cutoff(s) 1..N/2 "
         "given as Fourier pixels or as resolution+pixel size (cubic boxes only; incl. exact .5 ties of box*px/res); Gaussian width from "
         "{0,1,2,3,4} or a dyadic non-integer in (0,4]; input = seeded normal random field (+DC offset) or a sweep of pure plane waves "
         "cos(2*pi*k.p/N+phase) over every integer frequency k of the box (small boxes) or a random subset). The real filter runs on the "
         "input, on a second field, on a*x+b*y, on a circularly shifted x, and with the companion low-pass(es); the gain of every DFT bin is "
-        "measured as fft(out)/fft(in) and compared with the Lean model's gain array. non-trivial = the measured gains contain a value "
+        "measured as fft(out)/fft(in) and compared with the Lean model's gain array; on tiny boxes the OUTPUT ARRAY is compared with the model's np.real(ifftn(fftn(x)*gain)). non-trivial = the measured gains contain a value "
         "> 0.5 and a value < 0.5 (the cutoff lies inside the box, something passes and something is stopped); distinct = distinct case content")
 ASSUMPTIONS = [
     "numpy.fft: fftn/ifftn are linear and mutually inverse, diagonalise circular shifts, map real input to a Hermitian spectrum; "
@@ -37,12 +62,15 @@ ASSUMPTIONS = [
     "skimage.filters.gaussian(mask, sigma) = separable correlation with exp(-q^2/(2 sigma^2)) normalised to unit sum on offsets |q| <= int(4 sigma+0.5), "
     "mode='nearest' (probed on an impulse and on an edge step every run; the model executes this kernel with Lean's Float.exp)",
     "float64 arithmetic of numpy ~ exact arithmetic: hard-edge masks are compared exactly (integers), everything else within 1e-9",
-    "'gain 1 inside cutoff-4s-1 / 0 outside cutoff+4s+1' is checked up to the weight the truncated Gaussian kernel carries at offsets of length >= 4s+1 "
-    "(exact bound from Props/C12.soft_gain_tail; 1.5e-5 at s=1, 3.4e-4 at s=4); 'non-increasing in between' along the 26 axis/diagonal rays within 1e-9",
+    "'gain 1 inside cutoff-4s-1 / 0 outside cutoff+4s+1' is checked with the PROVED bounds of Props/C12.soft_gain_inside/outside: 1-gain <= tail3(ker, floor((4s+1)^2)), "
+    "gain <= tail3(ker, ceil((4s+1)^2)-1), both evaluated by the driver on the executed kernel together with the per-bin hypotheses (fitsInside/fitsOutside); "
+    "the judge adds only the FFT round-off 1e-9. 'non-increasing in between' is checked along the 26 axis/diagonal rays within 1e-9 (proved along axis-parallel "
+    "lines for symmetric unimodal kernels when the ball stays off the faces of the mask box: soft_gain_mono_axis_x/y/z)",
+    "the model's own DFT (naive separable, Float cos/sin twiddles) agrees with numpy.fft (pocketfft) within 1e-9 on boxes <= 8 per axis (compared on every such case)",
     "Python round(float) = round-half-even of the exact value of the double (the model decodes the IEEE bits and rounds exactly)",
     "inputs are float64 arrays (numpy 2 transforms float32 maps in single precision: outside the tolerances used here)",
 ]
-TRUSTED = ["harness gain measurement fft(out)/fft(in) and the plane-wave generator (props/c12.py)", "Drv/C12.lean JSON glue, Float.exp, float bit decoding (Model/C12.fracOfBits)"]
+TRUSTED = ["harness gain measurement fft(out)/fft(in) and the plane-wave generator (props/c12.py)", "Drv/C12.lean JSON glue, Float.exp/cos/sin, float bit decoding (Model/C12.fracOfBits)"]
 
 REL_MAP = "cryocat/cryomap.py"
 REL_MASK = "cryocat/cryomask.py"
@@ -404,10 +432,13 @@ def _dims(rng, tier):
     k = rng.random()
     if tier == "thorough" and k < 0.55:
         hi = 20          # keep most thorough cases cheap; the rest go up to 48
+    lo = 8
+    if rng.random() < (0.22 if tier != "thorough" else 0.12):     # tiny boxes: the model filters them end to end with its own DFT
+        lo, hi = 5, TINY
     if rng.random() < 0.5:
-        n = rng.randint(8, hi)
+        n = rng.randint(lo, hi)
         return [n, n, n]
-    return [rng.randint(8, hi) for _ in range(3)]
+    return [rng.randint(lo, hi) for _ in range(3)]
 
 
 def _sigma(rng):
@@ -578,6 +609,8 @@ def run_impl(case):
             out["gain_imag_max"] = float(np.abs(G.imag).max())
             out["imag_max"] = float(np.abs(yc.imag).max()) if yc.dtype.kind == "c" else 0.0
             yr = yc.real
+            if max(dims) <= TINY:
+                out["out"] = _bits(yr)
             scale = float(np.abs(x).max())
             out["scale"] = scale
             # linearity
@@ -660,11 +693,16 @@ def requests(case, obs):
     else:
         rq.update(case["cut"])
         rq["sigma"] = case["sigma"]
+        if b2f(case["sigma"]) != 0.0:
+            rq["m_in"], rq["m_out"] = margin_m(b2f(case["sigma"]))
     out = [rq]
     cuts = ["cut"] if case["kind"] != "band" else ["lp", "hp"]
     for c in cuts:
         if "res" in case[c]:
             out.append(dict(op="res2pix", edge=case["dims"][0], px=case["px"], res=case[c]["res"]))
+    if max(case["dims"]) <= TINY and "out" in obs:
+        fq = dict(rq, op="filter", x=_bits(_field(tuple(case["dims"]), case["input"]["seed"])))
+        out.append(fq)
     return out
 
 
@@ -688,8 +726,18 @@ def _ray_violation(g, dims):
     return worst
 
 
-def _spec_gain(case, kind, radii, sig, g, dims, what):
-    """clauses of the statement about the gain array g of a low-pass (kind 'low') or its complement ('high')"""
+def _model_margins(m, dims, r, s):
+    """(tail_in, tail_out, inside flags, outside flags, origin) — the bounds of Props/C12.soft_margin_checked as evaluated by the driver"""
+    if m is not None and "tail_in" in m and m.get("radius") == [r]:
+        n = dims[0] * dims[1] * dims[2]
+        if len(m["inside"]) == n and len(m["outside"]) == n:
+            return (b2f(m["tail_in"]), b2f(m["tail_out"]), np.array(m["inside"], dtype=bool).reshape(dims), np.array(m["outside"], dtype=bool).reshape(dims), "driver")
+    tw = tail_weight(s)
+    return tw, tw, None, None, "fallback"
+
+
+def _spec_gain(case, kind, radii, sig, g, dims, what, m=None):
+    """clauses of the statement about the gain array g of a low-pass (kind 'low') or its complement ('high'); m = the model's answer"""
     out = []
     R2 = radius2(dims)
     low = g if kind == "low" else 1.0 - g
@@ -702,15 +750,20 @@ def _spec_gain(case, kind, radii, sig, g, dims, what):
             out.append(dict(kind="spec", clause="hard-cutoff", detail=f"{what}: bin {j} (|k|^2={int(R2[j])}, cutoff {r}, cutoff^2={r*r}): low-pass gain {low[j]:.12g}, statement demands {want[j]:.0f}; {len(bad)} bins differ"))
     else:
         R = np.sqrt(R2)
-        inside = R <= r - 4 * s - 1
-        outside = R >= r + 4 * s + 1
-        tol = tail_weight(s) + TOL
-        if inside.any() and np.abs(low[inside] - 1).max() > tol:
-            j = tuple(int(v) for v in np.argwhere(inside & (np.abs(low - 1) > tol))[0])
-            out.append(dict(kind="spec", clause="soft-inside", detail=f"{what}: bin {j} radius {R[j]:.3f} <= cutoff-4s-1 = {r-4*s-1}: low-pass gain {low[j]:.9g} differs from 1 by more than the kernel weight beyond 4s+1 ({tail_weight(s):.3g})"))
-        if outside.any() and np.abs(low[outside]).max() > tol:
-            j = tuple(int(v) for v in np.argwhere(outside & (np.abs(low) > tol))[0])
-            out.append(dict(kind="spec", clause="soft-outside", detail=f"{what}: bin {j} radius {R[j]:.3f} >= cutoff+4s+1 = {r+4*s+1}: low-pass gain {low[j]:.9g} exceeds the kernel weight beyond 4s+1 ({tail_weight(s):.3g})"))
+        inside, outside = margin_sets(dims, r, s)
+        tin, tout, fin, fout, origin = _model_margins(m, dims, r, s)
+        if fin is not None:
+            # every bin the statement calls inside/outside must satisfy the hypotheses of soft_gain_inside/outside (else the bound is not proved for it)
+            if (inside & ~fin).any() or (outside & ~fout).any():
+                j = tuple(int(v) for v in np.argwhere((inside & ~fin) | (outside & ~fout))[0])
+                out.append(dict(kind="corr", clause="margin-vs-model", detail=f"{what}: bin {j} radius {R[j]:.3f} is inside/outside by the statement (cutoff {r}, 4s+1={4*s+1}) but the model's fitsInside/fitsOutside flag is not set"))
+            inside, outside = inside | fin, outside | fout      # the proved bound holds on every flagged bin: check all of them
+        if inside.any() and (1 - low[inside]).max() > tin + TOL:
+            j = tuple(int(v) for v in np.argwhere(inside & (1 - low > tin + TOL))[0])
+            out.append(dict(kind="spec", clause="soft-inside", detail=f"{what}: bin {j} radius {R[j]:.3f} <= cutoff-4s-1 = {r-4*s-1}: low-pass gain {low[j]:.9g} is below 1 by more than the kernel weight at offsets longer than 4s+1 ({tin:.6g}, {origin})"))
+        if outside.any() and low[outside].max() > tout + TOL:
+            j = tuple(int(v) for v in np.argwhere(outside & (low > tout + TOL))[0])
+            out.append(dict(kind="spec", clause="soft-outside", detail=f"{what}: bin {j} radius {R[j]:.3f} >= cutoff+4s+1 = {r+4*s+1}: low-pass gain {low[j]:.9g} exceeds the kernel weight at offsets of length >= 4s+1 ({tout:.6g}, {origin})"))
         inc, where = _ray_violation(low, dims)
         if inc > TOL:
             out.append(dict(kind="spec", clause="soft-monotone", detail=f"{what}: low-pass gain grows by {inc:.3g} along ray {where}"))
@@ -757,7 +810,7 @@ def judge(case, obs, resps):
         s = b2f(case["sigma"])
         if g.min() < -TOL or g.max() > 1 + TOL:
             out.append(dict(kind="spec", clause="gain-range", detail=f"measured gain range [{g.min():.12g}, {g.max():.12g}]"))
-        out += _spec_gain(case, kind, radii[0], s, g, dims, kind + "pass")
+        out += _spec_gain(case, kind, radii[0], s, g, dims, kind + "pass", resps[0] if resps else None)
     else:
         sl, sh = b2f(case["lp_sigma"]), b2f(case["hp_sigma"])
         if sl == sh and radii[1] <= radii[0] and (g.min() < -TOL or g.max() > 1 + TOL):
@@ -786,16 +839,30 @@ def judge(case, obs, resps):
         return out
     if m["radius"] != obs.get("radii", radii):
         out.append(dict(kind="corr", clause="radius-vs-model", detail=f"model cutoffs {m['radius']}, get_filter_radius {obs.get('radii', radii)}"))
+    nres = sum(1 for c in cuts if "res" in case[c])
+    rres = resps[1:1 + nres]
     for r in resps[1:]:
         if "error" in r:
             out.append(dict(kind="corr", clause="model-rejects", detail=str(r)))
-    if "res2pix" in obs and [r.get("pixels") for r in resps[1:]] != [v[0] for v in obs["res2pix"]]:
-        out.append(dict(kind="corr", clause="res2pix-vs-model", detail=f"resolution2pixels {obs['res2pix']} vs model {[r.get('pixels') for r in resps[1:]]}"))
+    if "res2pix" in obs and [r.get("pixels") for r in rres] != [v[0] for v in obs["res2pix"]]:
+        out.append(dict(kind="corr", clause="res2pix-vs-model", detail=f"resolution2pixels {obs['res2pix']} vs model {[r.get('pixels') for r in rres]}"))
     eff = np.array([b2f(b) for b in m["eff"]]).reshape(dims)
     dev = np.abs(g - eff)
     if dev.max() > TOL:
         j = tuple(int(v) for v in np.argwhere(dev > TOL)[0])
         out.append(dict(kind="corr", clause="gain-vs-model", detail=f"bin {j}: measured gain {g[j]:.12g}, model {eff[j]:.12g}; max deviation {dev.max():.3g} over {int((dev > TOL).sum())} bins"))
+    # tiny boxes: the whole filter np.real(ifftn(fftn(x) * ifftshift(mask))) executed by the model on its own DFT
+    fr = [r for r in resps[1:] if isinstance(r, dict) and "out" in r]
+    if "out" in obs:
+        if not fr:
+            out.append(dict(kind="corr", clause="filter-vs-model", detail=f"no model output for a tiny box: {[r for r in resps[1:] if 'error' in r][:1]}"))
+        else:
+            ym = np.array([b2f(b) for b in fr[0]["out"]]).reshape(dims)
+            yo = np.array([b2f(b) for b in obs["out"]]).reshape(dims)
+            dv = np.abs(ym - yo)
+            if not (dv.max() <= TOL * sc):
+                jj = tuple(int(v) for v in np.argwhere(~(dv <= TOL * sc))[0])
+                out.append(dict(kind="corr", clause="filter-vs-model", detail=f"voxel {jj}: filtered value {yo[jj]:.12g}, model {ym[jj]:.12g}; max deviation {dv.max():.3g}"))
     if "waves" in obs:
         for kx, ky, kz, gb, im in obs["waves"]:
             ref = eff[kx % dims[0], ky % dims[1], kz % dims[2]]
@@ -813,7 +880,7 @@ def nontrivial(case, obs):
 
 
 def _bucket(n):
-    return "8-12" if n <= 12 else ("13-16" if n <= 16 else ("17-24" if n <= 24 else ("25-32" if n <= 32 else "33-48")))
+    return "5-7" if n < 8 else "8-12" if n <= 12 else ("13-16" if n <= 16 else ("17-24" if n <= 24 else ("25-32" if n <= 32 else "33-48")))
 
 
 def stats(case, obs, resps):
@@ -843,12 +910,21 @@ def stats(case, obs, resps):
         low = g if case["kind"] == "low" else 1.0 - g
         R = np.sqrt(radius2(d))
         ins, outs = R <= radii[0] - 4 * sig[0] - 1, R >= radii[0] + 4 * sig[0] + 1
-        used = max(float(np.abs(low[ins] - 1).max()) if ins.any() else 0.0, float(np.abs(low[outs]).max()) if outs.any() else 0.0)
+        used_in = float(np.abs(low[ins] - 1).max()) if ins.any() else 0.0
+        used_out = float(np.abs(low[outs]).max()) if outs.any() else 0.0
         st["soft_inside/outside_bins"] = ("inside" if ins.any() else "") + ("+outside" if outs.any() else "") or "none"
+        tin, tout, fin, fout, origin = _model_margins(resps[0] if resps else None, tuple(d), radii[0], sig[0])
+        st["margin_tolerance_from"] = origin
+        if fin is not None:
+            st["proved_margin_bins/statement_bins"] = "more" if ((fin | fout) & ~(ins | outs)).any() else "same"
         if ins.any() or outs.any():
-            tw = tail_weight(sig[0])
-            fr = used / tw if tw > 1e-9 else None
+            tw = max(tin, tout)
+            fr = max(used_in / tin if tin > 1e-9 else 0.0, used_out / tout if tout > 1e-9 else 0.0) if tw > 1e-9 else None
             st["tail_dev/kernel_tail_weight"] = "weight<1e-9" if fr is None else ("<1%" if fr < 0.01 else ("<25%" if fr < 0.25 else ("<100%" if fr <= 1 else ">100%")))
+    fr_ = [r for r in (resps or [])[1:] if isinstance(r, dict) and "out" in r]
+    if "out" in obs and fr_:
+        dvf = float(np.abs(np.array([b2f(b) for b in fr_[0]["out"]]) - np.array([b2f(b) for b in obs["out"]])).max())
+        st["filter_output_vs_model_dft"] = "<1e-13" if dvf < 1e-13 else ("<1e-11" if dvf < 1e-11 else ("<1e-9" if dvf < 1e-9 else ">=1e-9"))
     if "waves" in obs:
         n = len(obs["waves"])
         st["plane_waves"] = "1-20" if n <= 20 else ("21-100" if n <= 100 else ("101-500" if n <= 500 else ">500"))
@@ -920,6 +996,8 @@ def probes(rng):
         e = filters.gaussian(st, sigma=s_)[:, 0, 0]
         want = np.array([sum(w[q + t] * (1.0 if min(max(i + q, 0), n - 1) < 2 else 0.0) for q in range(-t, t + 1)) for i in range(n)])
         okk = okk and np.abs(e - want).max() < 1e-12
+        uni = bool(np.array_equal(w, w[::-1]) or np.abs(w - w[::-1]).max() < 1e-17) and bool((np.diff(w[t:]) <= 0).all())
+        out.append(dict(name=f"model kernel sigma={s_} is symmetric and non-increasing in |offset| (UnimodalKernel, hypothesis of soft_gain_mono_axis_*)", ok=uni, detail=""))
         out.append(dict(name=f"skimage gaussian = model kernel (sigma={s_}: support {t}, unit sum, positive, mode nearest)", ok=bool(okk),
                         detail="" if okk else f"impulse dev {np.abs(resp1-full).max():.3g} edge dev {np.abs(e-want).max():.3g}"))
     return out
@@ -927,16 +1005,22 @@ def probes(rng):
 
 LEVEL_TEXT = ("Lean 4 theorems about an executable model of cryomap.lowpass/highpass/bandpass, get_filter_radius, resolution2pixels and the "
               "spherical_mask transfer function: the filters are linear, real-valued, shift-commuting Fourier multipliers for every transform pair "
-              "with the DFT's algebraic properties; high-pass = identity - low-pass and band-pass = difference of its two low-passes; the hard-edge gain "
-              "is 1 exactly for integer frequency radius^2 <= cutoff^2 and 0 beyond, on boxes of any size and shape, and is even (np.real drops nothing); "
-              "with any non-negative unit-sum kernel (the model's Gaussian kernel is proved to be one for every positive exponential) the gain lies in "
-              "[0,1], is exactly 1 / 0 where the kernel cube stays inside / outside the ball, and 1-gain is bounded by the kernel weight leaving the ball; "
-              "round-half-even characterisation of resolution2pixels. Tied to the source by 16 regenerated anchors and by measuring the real filters' gains "
-              "(fft(out)/fft(in), random fields and plane waves at every integer frequency) against the model's gain arrays")
-LEVEL_NOTE = ("partial: '1 inside cutoff-4s-1, 0 outside cutoff+4s+1' holds only up to the weight of the truncated Gaussian beyond 4s+1 (validated with that weight as tolerance, <=3.4e-4; "
-              "proved: exact bound by the kernel weight leaving the ball); 'non-increasing in between' is validated along axis/diagonal rays, not proved "
-              "(a fact about the kernel shape); numpy.fft and skimage.filters.gaussian are modelled by recorded, probed assumptions; floating point vs exact "
-              "arithmetic within 1e-9; band-pass gain range [0,1] is proved/checked for nested masks with equal widths only (with different widths the "
+              "with the DFT's algebraic properties, and the model's own separable DFT (executed by the driver) is PROVED to be such a pair over every field "
+              "with primitive roots of unity, in particular over the complex numbers with numpy's twiddles; high-pass = identity - low-pass and band-pass = "
+              "difference of its two low-passes; the hard-edge gain is 1 exactly for integer frequency radius^2 <= cutoff^2 and 0 beyond, on boxes of any size "
+              "and shape, and is even (np.real drops nothing); with any non-negative unit-sum kernel (the model's Gaussian kernel is proved to be one for every "
+              "positive exponential) the gain lies in [0,1], and for sqrt(A)+sqrt(m) <= cutoff (resp. sqrt(A) > cutoff+sqrt(m)) a bin of squared radius A has "
+              "1-gain (resp. gain) <= the kernel weight at offsets of squared length > m, which is 0 beyond the kernel's reach sqrt(3)*t (exact plateaus); the gain "
+              "is non-increasing along axis-parallel lines away from the centre for symmetric unimodal kernels (the model's kernel is one for every positive monotone "
+              "exponential) when the ball stays off the box faces; round-half-even characterisation of resolution2pixels. Tied to the source by 16 regenerated anchors, "
+              "by measuring the real filters' gains (fft(out)/fft(in), random fields and plane waves at every integer frequency) against the model's gain arrays, and "
+              "on boxes <= 8 per axis by comparing the real OUTPUT ARRAY with the model's np.real(ifftn(fftn(x)*gain)) executed on the model's DFT")
+LEVEL_NOTE = ("partial: the literal '= 1 inside cutoff-4s-1, = 0 outside cutoff+4s+1' is false in exact arithmetic for margins below the kernel reach (proved: "
+              "soft_edge_full_false_below_reach); proved and checked instead: the deviation is at most the kernel tail weight beyond the margin (<=3.4e-4 for s<=4), "
+              "computed by the driver; 'non-increasing in between' is proved along axis-parallel lines only (not along diagonals, not where the ball touches a face of "
+              "the mask box, not for the np.real-symmetrised gain) and validated along the 26 rays; the DFT shift theorem and the Hermitian-symmetry facts used by "
+              "filt_shift/filt_effective_gain remain hypotheses (probed on numpy.fft); skimage.filters.gaussian is modelled by a recorded, probed assumption; floating "
+              "point vs exact arithmetic within 1e-9; band-pass gain range [0,1] is proved/checked for nested masks with equal widths only (with different widths the "
               "difference of two low-passes can be negative by construction)")
 TECHNIQUE = "Lean 4 proof (multiplier algebra over modules, integer index arithmetic, weighted-sum inequalities over ordered fields) + regenerated anchors + measured-gain correspondence"
 DESIGN_REF = "DESIGN.md section 4, C12"
